@@ -144,6 +144,10 @@ def run(unit_names, scratch, log):
         out['undecided'].append('kani: ' + l)
     env = dict(os.environ, CARGO_NET_OFFLINE='true', CARGO_TARGET_DIR=os.path.join(VERIF, '.cache', 'kani-target'))
     env.pop('RUSTUP_TOOLCHAIN', None)
+    import fcntl
+    os.makedirs(env['CARGO_TARGET_DIR'], exist_ok=True)
+    lock = open(os.path.join(env['CARGO_TARGET_DIR'], '.verif-lock'), 'w')
+    fcntl.flock(lock, fcntl.LOCK_EX)   # concurrent checks of different trees share this target dir
     for leg in mods:
         oid = 'kani.%s.contract' % leg['id']
         out['obligations'].append(dict(id=oid, item=leg['id'], kind='kani-contract', props=list(leg['props']),
